@@ -406,7 +406,18 @@ where
 
                 this.waiter.close();
                 this.inner.set(InnerCheckoutConnecting::Connected);
-                Poll::Ready(Ok(register_connected(this.pool, *this.token, connection)))
+
+                if connection.can_share() {
+                    // The pool kept its own handle to a shared connection,
+                    // there is nothing to register.
+                    Poll::Ready(Ok(Pooled {
+                        connection: Some(connection),
+                        token: Token::zero(),
+                        pool: PoolRef::none(),
+                    }))
+                } else {
+                    Poll::Ready(Ok(register_connected(this.pool, *this.token, connection)))
+                }
             }
             CheckoutConnectingProj::Connecting(connector) => {
                 let result = ready!(connector.poll_connector(
